@@ -47,6 +47,7 @@ def t_struct(chk, ix):
     rules_parser.check_parse_tags_entry(chk, ix)
     rules_parser.check_model_adders(chk, ix)
     rules_parser.check_parse_step_concrete(chk, ix)
+    rules_parser.check_step_keywords_all_languages(chk, ix)
     rules_parser.check_parse_file_passes_text(chk, ix)
     # a parse function returns a fresh model for the text it is given: it keeps no memo (the result is mutable, a file
     # may change between two calls)
@@ -70,4 +71,5 @@ def run(chk, ix, tier):
     chk.require_instances("P11", 8)
     chk.require_instances("RF8", 6)
     chk.require_instances("P12", 16)
+    chk.require_instances("P14", 500)
     chk.require_instances("P13", 3)
